@@ -98,8 +98,8 @@ def run_job(job):
             rng = s.rng("r", wseed)
             s.cmd("setup_new", rng=rng, out="S")
             reg = proto.register(s, rng, "S", pw, b"cred", id_u=idu, id_s=ids, wire=False, tag="g")
-            good = proto.login(s, rng, rng, "S", "g.file", pw, b"cred", ctx_c=ctx, ctx_s=ctx, id_u_c=idu, id_s_c=ids, id_u_s=idu,
-                               id_s_s=ids, wire=False, tag="ok")
+            good = proto.login(s, rng, rng, "S", reg.file_h, pw, b"cred", ctx_c=ctx, ctx_s=ctx, id_u_c=idu, id_s_c=ids, id_u_s=idu,
+                               id_s_s=ids, wire=False, tag="ok") if reg.ok else reg
             evals += 8
             if not (reg.ok and good.ok):
                 viol.append({"sig": "C02 control: right password rejected", "what": "%s pw class %s: %s %s" % (su, rlab, reg.first_failure(), good.first_failure())})
